@@ -109,7 +109,7 @@ func (e Engine) Pool() []Op {
 	// in different ways, some with more than one problem at once)
 	for i := 0; i < 60; i++ {
 		p, _ := gen.GenPattern(simrt.NewTape(simrt.Mix(171717, uint64(i))))
-		if len(p) > 0 && len(p) < 24 && !strings.Contains(p, "{20}") {
+		if len(p) > 0 && len(p) < 24 {
 			add(Op{"nfa", p})
 			if i%3 == 0 {
 				add(Op{"regex_dfa", p})
